@@ -49,7 +49,8 @@ ASSUMPTIONS = [
 ]
 FLOORS = {
     'has:rejected-then-ok': 0.15,
-    'has:future-chain': 0.004,
+    'has:future-chain': 0.002,
+    'has:followed-half-trained': 0.01,
     'op:illegal': 0.22,
     'op:segment-ok': 0.1,
     'perm:all-legal': 0.003,
